@@ -810,4 +810,206 @@ theorem init_cinv (S : Schema) (G : SchemaOk S) (isOpen : Bool) (pw : WS) (topOp
       simp only [NodeCtx.new, Bool.false_eq_true, if_false, Option.isNone_some, Bool.or_false] at hq
       simp only [Option.some.injEq] at hq; subst hq; exact G.start _ G.top
 
+/-! ### the only exceptions are ValueError and the internal ones -/
+
+theorem mapRes_nf {α β : Type} (f : α → Res β) (hf : ∀ a e, f a = .error e → e ≠ .failed) :
+    ∀ (l : List α) (e : Err), mapRes f l = .error e → e ≠ .failed
+  | [], e, h => by simp [mapRes] at h
+  | a :: as, e, h => by
+    unfold mapRes at h
+    split at h
+    · rename_i e' he'; cases h; exact hf a _ he'
+    · split at h
+      · rename_i e' he'; cases h; exact mapRes_nf f hf as _ he'
+      · cases h
+
+theorem computeAttrs_nf (decls : List AttrDecl) (given : Attrs) (e : Err) (h : computeAttrs decls given = .error e) :
+    e ≠ .failed := by rw [computeAttrs_err' _ _ _ h]; decide
+
+theorem createAndFill_nf (S : Schema) : ∀ (fuel : Nat) (t : TypeId) (e : Err), createAndFill S fuel t = .error e → e ≠ .failed
+  | 0, _, e, h => by simp only [createAndFill] at h; cases h; decide
+  | fuel + 1, t, e, h => by
+    unfold createAndFill at h
+    split at h
+    · rename_i e' he'; cases h; exact computeAttrs_nf _ _ _ he'
+    · split at h
+      · cases h; decide
+      · split at h
+        · rename_i e' he'; cases h; exact mapRes_nf _ (createAndFill_nf S fuel) _ _ he'
+        · cases h
+
+theorem fillNodes_nf (S : Schema) (d : Dfa) (q : Nat) (after : List TypeId) (toEnd : Bool) (e : Err)
+    (h : fillNodes S d q after toEnd = .error e) : e ≠ .failed := by
+  unfold fillNodes at h
+  split at h
+  · cases h
+  · cases hm : mapRes (createAndFill S (S.nodes.size + 1)) ‹_› with
+    | error e' => rw [hm] at h; simp only [Except.map] at h; cases h; exact mapRes_nf _ (createAndFill_nf S _) _ _ hm
+    | ok v => rw [hm] at h; simp [Except.map] at h
+
+theorem findWrapping_nf (S : Schema) (cx : NodeCtx) (ty : TypeId) (e : Err) (h : cx.findWrapping S ty = .error e) : e ≠ .failed := by
+  unfold NodeCtx.findWrapping at h
+  repeat' split at h
+  all_goals first
+    | (cases h; done)
+    | (rename_i e' he'; cases h; exact fillNodes_nf _ _ _ _ _ _ he')
+
+theorem finishContent_nf (S : Schema) (cx : NodeCtx) (oe : Bool) (e : Err) (h : cx.finishContent S oe = .error e) : e ≠ .failed := by
+  unfold NodeCtx.finishContent at h
+  dsimp only at h
+  repeat' split at h
+  all_goals first
+    | (cases h; done)
+    | (cases h; decide)
+    | (rename_i e' he'; cases h; exact fillNodes_nf _ _ _ _ _ _ he')
+
+theorem finishNode_nf (S : Schema) (cx : NodeCtx) (oe : Bool) (t : TypeId) (e : Err) (h : cx.finishNode S oe t = .error e) : e ≠ .failed := by
+  unfold NodeCtx.finishNode at h
+  repeat' split at h
+  all_goals first
+    | (cases h; done)
+    | (rename_i e' he'; cases h; exact finishContent_nf _ _ _ _ he')
+    | (rename_i e' he'; cases h; exact computeAttrs_nf _ _ _ he')
+
+theorem closeExtraLoop_nf (S : Schema) (oe : Bool) : ∀ (k : Nat) (nodes : List NodeCtx) (e : Err),
+    closeExtraLoop S oe k nodes = .error e → e ≠ .failed
+  | 0, _, e, h => by simp [closeExtraLoop] at h
+  | k + 1, nodes, e, h => by
+    unfold closeExtraLoop at h
+    repeat' split at h
+    all_goals first
+      | (cases h; done)
+      | (cases h; decide)
+      | (rename_i e' he'; cases h; exact finishNode_nf _ _ _ _ _ he')
+      | exact closeExtraLoop_nf S oe k _ e h
+
+theorem closeExtra_nf (S : Schema) (st : PState) (oe : Bool) (e : Err) (h : st.closeExtra S oe = .error e) : e ≠ .failed := by
+  unfold PState.closeExtra at h
+  cases hl : closeExtraLoop S oe (st.nodes.length - 1 - st.open_) st.nodes with
+  | error e' => rw [hl] at h; simp only [Except.map] at h; cases h; exact closeExtraLoop_nf _ _ _ _ _ hl
+  | ok v => rw [hl] at h; simp [Except.map] at h
+
+theorem enterInner_nf (S : Schema) (wsPre : TypeId → Bool) (st : PState) (ty : TypeId) (attrs : Option Attrs) (solid : Bool)
+    (pw : WS) (e : Err) (h : st.enterInner S wsPre ty attrs solid pw = .error e) : e ≠ .failed := by
+  unfold PState.enterInner at h
+  repeat' split at h
+  all_goals first
+    | (cases h; done)
+    | (cases h; decide)
+    | (rename_i e' he'; cases h; exact closeExtra_nf _ _ _ _ he')
+
+theorem findPlaceLoop_nf (S : Schema) (ty : TypeId) : ∀ (n : Nat) (nodes : List NodeCtx) (route : Option (List TypeId))
+    (sync : Option Nat) (e : Err), findPlaceLoop S ty n nodes route sync = .error e → e ≠ .failed
+  | 0, _, _, _, e, h => by simp [findPlaceLoop] at h
+  | d + 1, nodes, route, sync, e, h => by
+    unfold findPlaceLoop at h
+    split at h
+    · cases h; decide
+    · split at h
+      · rename_i e' he'; cases h; exact findWrapping_nf _ _ _ _ he'
+      · dsimp only at h
+        split at h
+        · cases h
+        · exact findPlaceLoop_nf S ty d _ _ _ e h
+
+theorem enterRoute_nf (S : Schema) (wsPre : TypeId → Bool) : ∀ (route : List TypeId) (st : PState) (e : Err),
+    enterRoute S wsPre route st = .error e → e ≠ .failed
+  | [], _, e, h => by simp [enterRoute] at h
+  | r :: rs, st, e, h => by
+    unfold enterRoute at h
+    split at h
+    · rename_i e' he'; cases h; exact enterInner_nf _ _ _ _ _ _ _ _ he'
+    · exact enterRoute_nf S wsPre rs _ e h
+
+theorem map_nf {α β : Type} (f : α → β) (r : Res α) (e : Err) (h : Except.map f r = .error e) : r = .error e := by
+  cases r with
+  | error e' => simpa [Except.map] using h
+  | ok v => simp [Except.map] at h
+
+theorem findPlace_nf (S : Schema) (wsPre : TypeId → Bool) (st : PState) (ty : TypeId) (e : Err)
+    (h : st.findPlace S wsPre ty = .error e) : e ≠ .failed := by
+  unfold PState.findPlace at h
+  split at h
+  · rename_i e' he'; cases h; exact findPlaceLoop_nf _ _ _ _ _ _ _ he'
+  · dsimp only at h
+    split at h
+    · cases h
+    · exact enterRoute_nf _ _ _ _ _ (map_nf _ _ _ h)
+
+theorem insertNode_nf (S : Schema) (wsPre : TypeId → Bool) (st : PState) (node : Node) (e : Err)
+    (h : st.insertNode S wsPre node = .error e) : e ≠ .failed := by
+  unfold PState.insertNode at h
+  dsimp only at h
+  split at h
+  · rename_i e' he'
+    cases h
+    split at he'
+    · split at he'
+      · exact enterInner_nf _ _ _ _ _ _ _ _ he'
+      · cases he'
+    · cases he'
+  · split at h
+    · rename_i e' he'; cases h; exact findPlace_nf _ _ _ _ _ he'
+    · cases h
+    · split at h
+      · rename_i e' he'; cases h; exact closeExtra_nf _ _ _ _ he'
+      · split at h
+        · cases h; decide
+        · cases h
+
+theorem enter_nf (S : Schema) (wsPre : TypeId → Bool) (st : PState) (ty : TypeId) (attrs : Option Attrs) (pw : WS) (e : Err)
+    (h : st.enter S wsPre ty attrs pw = .error e) : e ≠ .failed := by
+  unfold PState.enter at h
+  split at h
+  · rename_i e' he'; cases h; exact computeAttrs_nf _ _ _ he'
+  · split at h
+    · rename_i e' he'; cases h; exact findPlace_nf _ _ _ _ _ he'
+    · cases h
+    · exact enterInner_nf _ _ _ _ _ _ _ _ (map_nf _ _ _ h)
+
+theorem addPendingMark_nf (S : Schema) (st : PState) (m : TMark) (e : Err) (h : st.addPendingMark S m = .error e) : e ≠ .failed := by
+  unfold PState.addPendingMark at h
+  split at h
+  · cases h; decide
+  · cases h
+
+theorem removePendingLoop_nf (S : Schema) (m : TMark) (upto : Option Nat) : ∀ (n : Nat) (nodes : List NodeCtx) (e : Err),
+    removePendingLoop S m upto n nodes = .error e → e ≠ .failed
+  | 0, _, e, h => by simp [removePendingLoop] at h
+  | d + 1, nodes, e, h => by
+    unfold removePendingLoop at h
+    split at h
+    · cases h; decide
+    · dsimp only at h
+      split at h
+      · cases h
+      · exact removePendingLoop_nf S m upto d _ e h
+
+theorem finish_nf (S : Schema) (st : PState) (e : Err) (h : st.finish S = .error e) : e ≠ .failed := by
+  unfold PState.finish at h
+  split at h
+  · rename_i e' he'; cases h; exact closeExtra_nf _ _ _ _ he'
+  · split at h
+    · cases h; decide
+    · split at h
+      · exact finishNode_nf _ _ _ _ _ (map_nf _ _ _ h)
+      · exact finishContent_nf _ _ _ _ (map_nf _ _ _ h)
+
+/-- the placement core raises ValueError or dies with an internal error, nothing else -/
+theorem step_nf (S : Schema) (wsPre : TypeId → Bool) (st : PState) (ev : Event) (e : Err)
+    (h : st.step S wsPre ev = .error e) : e ≠ .failed := by
+  cases ev with
+  | insertNode n => exact insertNode_nf _ _ _ _ _ (map_nf _ _ _ h)
+  | enter ty attrs pw => exact enter_nf _ _ _ _ _ _ _ (map_nf _ _ _ h)
+  | findPlace n => exact findPlace_nf _ _ _ _ _ (map_nf _ _ _ h)
+  | addPending m => exact addPendingMark_nf _ _ _ _ (map_nf _ _ _ h)
+  | removePending m upto =>
+    have := map_nf _ _ _ h
+    unfold PState.removePendingMark at this
+    exact removePendingLoop_nf _ _ _ _ _ _ (map_nf _ _ _ this)
+  | sync to => simp [PState.step] at h
+  | setOpen v => simp [PState.step] at h
+  | setNeedsBlock b => simp [PState.step] at h
+  | closeExtra oe => exact closeExtra_nf _ _ _ _ (map_nf _ _ _ h)
+
 end PM.FromDom
